@@ -136,6 +136,146 @@ def build(kind, w, ctx_lit=None):
     return Program([f], Block(stmts))
 
 
+def _subdag(nodes, root):
+    seen, todo = set(), [root]
+    while todo:
+        i = todo.pop()
+        if i in seen:
+            continue
+        seen.add(i)
+        for k in ("l", "r"):
+            if isinstance(nodes[i].get(k), int):
+                todo.append(nodes[i][k])
+    return seen
+
+
+def cut_proof(case, res, solver):
+    """Compositional proof for a counter too wide for one query (16 bits): the loop is cut after the first `cut` counter bits.
+
+    For a node X of the emitted DAG whose type is  A x (C x 2^cut) -> B + A:
+      top:    the whole program with X replaced by an UNINTERPRETED function behaves like the source program whose loop runs
+              over the first `cut` counter bits (0,1,2,... first Left wins) with that same function as the body;
+      bottom: X itself, on every input (acc, ctx, prefix), is the source loop over the remaining counter bits with the
+              counter value  prefix ++ suffix  handed to the real body.
+    `top` holds for every meaning of the function, so the meaning `bottom` establishes can be substituted: together they say
+    that the program is the source loop over all 2^n counter values in increasing order.  Both obligations are decided by the
+    solver for all witnesses / all (acc, ctx, prefix); X is found by trying the nodes of that type."""
+    from .. import machine as M
+    w, j = case.tags["counter_bits"], case.tags["cut"]
+    text = program_text(case.prog)
+    res["text"] = text
+    fn = case.prog.fns[0]
+    A, C = fn.params[0][1], fn.params[1][1]
+    wA, wC, wR = width(A), width(C), width(fn.ret)
+    proved = {}
+    for dbg in case.debug_modes:
+        d = E._W["dump"].ask({"text": text, "debug": dbg, "args": {}})
+        if not d.get("ok"):
+            return {"status": "rejected", "detail": "%s: %s" % (d.get("stage"), (d.get("error") or "")[:400])}
+        nodes, types = d["nodes"], d["types"]
+        res["nodes"] = max(res["nodes"], len(nodes))
+        tidA = [n["t"] for n in nodes if n["k"] == "witness" and n.get("wit") == "ACC"]
+        if not tidA:
+            raise E.Broken("cut proof: no ACC witness node")
+        tidA = tidA[0]
+        cands = []
+        for i, n in enumerate(nodes):
+            st, tt = types[n["s"]], types[n["t"]]
+            if st["k"] == "prod" and st["l"] == tidA and st["w"] == wA + wC + j and tt["k"] == "sum" and tt["r"] == tidA and tt["w"] == wR:
+                if not any(nodes[x]["k"] == "witness" for x in _subdag(nodes, i)):
+                    cands.append(i)
+        # the loop levels are `comp` nodes; larger sub-expressions first (the level itself contains its helpers)
+        cands.sort(key=lambda i: -len(_subdag(nodes, i)))
+        tried = []
+        for X in cands[:6]:
+            prog = M.Program(d)
+            # top
+            T.reset()
+            m = M.Machine(prog, interpret=case.interpret)
+            m.opaque = {X: "cut_level"}
+            f_impl = m.run()
+            res["evals"] += m.evals
+            if not m.opaque_calls:
+                tried.append((X, "not reached"))
+                continue
+            problems = []
+            spec = Spec(E._witness_provider(m, d, problems), interpret=case.interpret)
+            spec.cut = (j, "cut_level")
+            f_spec = spec.run(case.prog)
+            goal = T.xor(f_impl, f_spec)
+            if goal.op == "c":
+                res["closed_by_rewriting"] = res.get("closed_by_rewriting", 0) + 1
+            r, _ = solver.check(goal, want_model=False, abstract=True)
+            res["queries"] += 1
+            if r != "unsat":
+                tried.append((X, "top: " + r))
+                continue
+            E._second_opinion(goal, res)
+            # bottom
+            T.reset()
+            m2 = M.Machine(prog, interpret=case.interpret)
+            accv = from_bits(A, T.var("cut_acc", wA)) if wA else from_bits(A, None)
+            ctxv = from_bits(C, T.var("cut_ctx", wC)) if wC else from_bits(C, None)
+            pre = T.var("cut_prefix", j)
+            inp = T.cat([to_bits(A, accv) if wA else None, to_bits(C, ctxv) if wC else None, pre])
+            out_impl, f_impl = m2.eval(X, inp)
+            res["evals"] += m2.evals
+
+            def nowit(name, ty):
+                raise SpecError("witness inside a loop body")
+
+            spec2 = Spec(nowit, interpret=case.interpret)
+            result, f_spec = spec2.loop_first_left(
+                fn.ret, accv, list(range(1 << (w - j))),
+                lambda acc, i: spec2.call_fn(fn, [acc, ctxv, T.cat([pre, T.const(w - j, i)])]))
+            out_spec = to_bits(fn.ret, result)
+            goal = T.or_(T.xor(f_impl, f_spec), T.and_(T.not_(f_spec), T.not_(T.eq(out_impl, out_spec))))
+            if goal.op == "c":
+                res["closed_by_rewriting"] = res.get("closed_by_rewriting", 0) + 1
+            r, _ = solver.check(goal, want_model=False, abstract=True)
+            res["queries"] += 1
+            if r != "unsat":
+                tried.append((X, "bottom: " + r))
+                continue
+            E._second_opinion(goal, res)
+            proved[dbg] = X
+            break
+        res.setdefault("cut_candidates", {})[str(dbg)] = {"candidates": len(cands), "rejected": [list(t) for t in tried], "level_node": proved.get(dbg)}
+        if dbg not in proved:
+            break
+    if len(proved) == len(case.debug_modes):
+        return {"status": "held"}
+    # no node of the DAG passes both obligations: look for a concrete disagreement with the real pipeline on whole runs
+    # (the exit iteration is a witness; the source loop is evaluated on constants, the real Bit Machine runs natively)
+    import random as _r
+    rng = _r.Random(case.cid)
+    dbg = case.debug_modes[-1]
+    for K in (0, 1, (1 << (w - j)) - 1, 1 << (w - j), (1 << (w - 1)) - 1, 1 << (w - 1), (1 << w) - 1, 1 << w):
+        T.reset()
+        wb = {"ACC": rng.getrandbits(wA), "CTX": K & ((1 << wC) - 1)}
+
+        def wit(name, ty):
+            return from_bits(ty, T.const(width(ty), wb[name]))
+
+        sp = Spec(wit, interpret=True)
+        loop = ForWhile(fn, Wit("ACC", A), Wit("CTX", C))
+        val, f = sp.eval(loop, [[]])
+        if not (f.op == "c"):
+            continue
+        bits = {"ACC": {"bits": format(wb["ACC"], "0%db" % wA)}, "CTX": {"bits": format(wb["CTX"], "0%db" % wC)}}
+        ev = to_bits(fn.ret, val)
+        bits["EXP"] = {"bits": format(ev.val, "0%db" % wR) if not f.val else "0" * wR}
+        real = E.run_real(case, text, dbg, bits)
+        spec_fail = bool(f.val)
+        if real.get("ok") and (not real["success"]) != spec_fail:
+            rec = {"property_case": case.cid, "text": text, "debug": dbg, "args": {}, "witness": bits,
+                   "spec_verdict": "fail" if spec_fail else "success", "real": real, "tags": case.tags}
+            return {"status": "violation", "kind": "behaviour", "replay_record": rec,
+                    "detail": "no level of the emitted loop passes the compositional proof (%s); exit iteration %d: source semantics %s, real run %s" % (
+                        res.get("cut_candidates"), K, rec["spec_verdict"], "success" if real["success"] else "fail")}
+    return {"status": "inconclusive", "detail": "compositional proof not found and no concrete disagreement on the probed exit points: %s" % res.get("cut_candidates")}
+
+
 def cases(tier, seed):
     out = []
 
@@ -167,6 +307,12 @@ def cases(tier, seed):
             add("exit", 16, False, ctx_lit=K, validate=False)
             if K not in (0, 1, 2, 257):
                 add("exit_panic_after", 16, True, ctx_lit=K, validate=(K < 1000))
+    # 16-bit counter, every exit iteration incl. never: compositional proof, loop cut after 8 counter bits
+    # (bodies with uninterpreted jets: ~1-2 min each; the interpreted exit_panic_after body did not finish in 25 min)
+    for kind, interp in (("exit_panic_after", False), ("exit", False)) + ((("exit_bool", False), ("countdown", False)) if tier == "thorough" else ()):
+        out.append(E.Case("forwhile-%s-w16-%s-cut8" % (kind, "int" if interp else "uf"), build(kind, 16), interpret=interp, custom=cut_proof, validate=False,
+                          tags={"kind": kind, "counter_bits": 16, "cut": 8, "mode": "interpreted" if interp else "uninterpreted",
+                                "exit": "symbolic (witness), compositional: top 8 bits x bottom 8 bits", "seed": seed}))
     add("exit", 4, False, mut={"fw_no_stop"})
     add("exit_panic_after", 2, True, mut={"fw_no_stop"})
     add("exit", 4, False, mut={"fw_bitrev"})
@@ -182,11 +328,11 @@ def main():
         technique="SMT (z3, QF_UFBV) equivalence of the symbolically executed emitted Simplicity DAG and a source-level counter loop; exit iteration symbolic; accumulator updates uninterpreted",
         functions=["compile.rs: for_while (for_while_0, adapt_f, task stack), Call::compile (ForWhile)",
                    "ast.rs: for_while signature/typing (accepts the generated programs)", "compile.rs: Match::compile inside the body"],
-        bounds={"counter_bits": "1,2,4,8 with a symbolic exit iteration incl. never; 16 with the exit iteration given as a literal (quick: 0, 1, 2, 257; thorough: 8 literals up to 4095)",
+        bounds={"counter_bits": "1,2,4,8 with a symbolic exit iteration incl. never, one query per program; 16 bits with a symbolic exit iteration incl. never by a compositional proof (cases *-cut8: the loop is cut after 8 counter bits; top obligation: program with the level-8 node X replaced by an uninterpreted function == source loop over 256 prefixes of that function; bottom obligation: X on every (acc, ctx, prefix) == source loop over the 256 suffixes with counter prefix++suffix; both solver-decided, jets uninterpreted); additionally 16 bits with the exit iteration given as a literal, jets interpreted (quick: 0, 1, 2, 257; thorough: 8 literals up to 4095)",
                 "bodies": ["exit when counter == ctx", "same + panic after the exit point", "result type differs from accumulator type",
                            "body ignores the counter", "tuple accumulator with unit context"]},
-        outside=["16-bit counter with symbolic exit or with an exit after iteration 4095 (incl. never)", "loop bodies other than listed", "jet arithmetic (validated concretely only)"],
-        assumptions=["z3 4.8.12 is sound on QF_UFBV", "simplicity-lang type finalisation supplies the DAG's types",
+        outside=["16-bit counter with INTERPRETED jets and an exit after iteration 4095 (the compositional proof quantifies over all jet meanings instead)", "loop bodies other than listed", "jet arithmetic (validated concretely only)"],
+        assumptions=["z3 4.8.12 is sound on QF_UFBV", "compositional 16-bit proof: substituting the meaning established by the bottom obligation for the uninterpreted function of the top obligation (sound: the top obligation holds for every function; the sub-expression contains no witness node, checked)", "simplicity-lang type finalisation supplies the DAG's types",
                      "source evaluator (simsym/src.py: for_while) is the specification"],
         min_validated=30,
         timeout_s=120, case_budget_s=200,
